@@ -725,8 +725,7 @@ func (e *Engine) execSelect(st *State, f *Frame, ins *ssa.Select) {
 			continue
 		}
 		if o := e.obj(st, ch.obj); o.isTimer && o.timerActive {
-			e.wobj(st, ch.obj).timerActive = false
-			st.clock += 1000000
+			st.clock += e.fireTimer(st, ch.obj)
 			now := AggVal{[]Value{e.ctx.BV(64, 1<<63), e.ctx.BV(64, uint64(st.clock)), PtrVal{}}}
 			e.set(f, ins, mk(i, true, myri, now))
 			f.pc++
@@ -734,6 +733,17 @@ func (e *Engine) execSelect(st *State, f *Frame, ins *ssa.Select) {
 		}
 	}
 	e.unsupported(st, "blocking select")
+}
+
+// fireTimer fires the armed timer/ticker channel obj and returns the time that passes (ns): a
+// timer is disarmed and 1ms passes; a ticker stays armed and its period passes.
+func (e *Engine) fireTimer(st *State, obj int) int64 {
+	wo := e.wobj(st, obj)
+	if wo.tickPeriod > 0 {
+		return wo.tickPeriod
+	}
+	wo.timerActive = false
+	return 1000000
 }
 
 // ---------- calls ----------
